@@ -37,6 +37,9 @@ TRUSTED_BASE = ["the numbering of specifications by the driver (creation order, 
                 "C3.legacy_ro, C3.mro, _StaticMRO, _TrackingC3, the resolver-building loop of C3.__init__"]
 ASSUMPTIONS = ["base graphs are acyclic and base lists do not repeat an entry (wfb, re-checked in Coq on every case)",
                "interface (name, module) keys are unique within a case (see C02/F10 for what happens otherwise)",
+               "omitted inputs: two distinct interfaces with equal (__name__, __module__) inside ONE hierarchy (known finding "
+               "F15: they collide in the ==-keyed memo/base_mros/seen of ro.py; kept as one judged corpus case and its mirror, "
+               "matched by exact key); the random streams (incl. the twin stream) never make twins co-reachable or co-dependent",
                "rebasing history: after any sequence of __bases__ reassignments every __sro__ equals the order of a "
                "freshly built hierarchy (checked by the rebase stream; the propagation proof belongs to C02)"]
 
@@ -186,7 +189,10 @@ def gen_twin(rng, n):
     for c in sorted(graph):
         if t in graph[c]:
             graph[c] = [tw if b == t else b for b in graph[c]]
-            ops.append([c, list(graph[c])])
+            ops.append([c, list(graph[c]), False])
+    if ops:
+        ops[-1][2] = True     # observe once every child has been moved: before that both twins sit in one
+        #                       hierarchy, where equal keys collide inside ro.py (outside the statement, see F10)
     if rng.random() < 0.5 and graph[t]:
         graph[t] = []
         ops.append([t, []])
@@ -241,6 +247,74 @@ FIXED = [
                                   {"kind": "iface", "bases": [0]}, {"kind": "iface", "bases": [], "twin_of": 1}],
      "rebase": [[2, [4]], [4, [3]], [3, []]]},
 ]
+
+
+# Known finding F15: two DISTINCT interfaces with equal (__name__, __module__) in ONE hierarchy collide in the
+# ==-keyed dictionaries of ro.py (memo, base_mros, `seen`).  Exactly this shape is kept as a judged corpus case
+# (corpus/C03/f15_twins.json); the random streams never put both twins into one hierarchy.
+F15_KEY = "F15-equal-named-twins-in-one-hierarchy-collide-in-C3-memo"
+F15_CASES = [
+    # IX, IY; A1 = 'IA'(IX); A2 = 'IA'(IY) (twin); IC(A1, A2)
+    {"stream": "f15", "twins": True,
+     "nodes": [{"kind": "iface", "bases": []}, {"kind": "iface", "bases": []}, {"kind": "iface", "bases": [1]},
+               {"kind": "iface", "bases": [2], "twin_of": 3}, {"kind": "iface", "bases": [3, 4]}]},
+    # mirror: IC(A2, A1)
+    {"stream": "f15", "twins": True,
+     "nodes": [{"kind": "iface", "bases": []}, {"kind": "iface", "bases": []}, {"kind": "iface", "bases": [1]},
+               {"kind": "iface", "bases": [2], "twin_of": 3}, {"kind": "iface", "bases": [4, 3]}]},
+    # the same shape with unique names (no finding)
+    {"stream": "f15", "nodes": [{"kind": "iface", "bases": []}, {"kind": "iface", "bases": []},
+                                {"kind": "iface", "bases": [1]}, {"kind": "iface", "bases": [2]},
+                                {"kind": "iface", "bases": [3, 4]}]},
+]
+
+
+def _reach(g, x):
+    seen, todo = set(), [x]
+    while todo:
+        y = todo.pop()
+        if y not in seen:
+            seen.add(y)
+            todo.extend(g.get(y, []))
+    return seen
+
+
+def finding_key(case, obs, mode):
+    """Known finding F15 and nothing else: the case declares twins, two distinct co-reachable nodes really have an
+    equal (name, module) key, every row of a node whose hierarchy does NOT contain both twins is exactly what the same
+    shape with unique names answers, and a row that differs (a) belongs to a node above both twins, (b) is still
+    duplicate-free, starts with the node and stays inside its hierarchy, and (c) differs in membership only by
+    twins and ancestors of twins (what the colliding dictionary entries drop)."""
+    if not case.get("twins") or "exc" in obs or "ref" not in obs or len(obs["ref"]) != len(obs["phases"]):
+        return None
+    key = {0: 0}
+    for i, nd in enumerate(case["nodes"], 1):
+        key[i] = nd.get("twin_of", i)
+    seen_bad = False
+    for ph, ref in zip(obs["phases"], obs["ref"]):
+        if ph["graph"] != ref["graph"] or any(x not in key for x, _ in ph["graph"]):
+            return None
+        g = {x: bs for x, bs in ph["graph"]}
+        twins = {a for a in g for b in g if a != b and key[a] == key[b]}
+        explain = set()
+        for t in twins:
+            explain |= _reach(g, t)
+        for row, want in zip(ph["obs"], ref["obs"]):
+            if row == want:
+                continue
+            x = row[0]
+            rx = _reach(g, x)
+            if not any(a in rx and b in rx and a != b and key[a] == key[b] for a in twins for b in twins):
+                return None
+            for col in (1, 2, 3, 4, 5):
+                got, exp = row[col], want[col]
+                if got is None or exp is None:
+                    continue
+                if (not got or got[0] != x or len(set(got)) != len(got) or not set(got) <= rx | {0}
+                        or not (set(got) ^ set(exp)) <= explain):
+                    return None
+            seen_bad = True
+    return F15_KEY if seen_bad else None
 
 
 def generate(run, tier):
@@ -356,8 +430,8 @@ def replay_text(case, obs, mode):
             if nd["impl"]:
                 lines.append("K[%d] = implementer(%s)(K[%d])" % (i, ", ".join("S[%d]" % b for b in nd["impl"]), i))
             lines.append("S[%d] = implementedBy(K[%d])" % (i, i))
-    for x, nb in case.get("rebase", []):
-        lines.append("S[%d].__bases__ = (%s)" % (x, "".join("S[%d], " % b for b in nb)))
+    for op in case.get("rebase", []):
+        lines.append("S[%d].__bases__ = (%s)" % (op[0], "".join("S[%d], " % b for b in op[1])))
     lines.append("for i, s in S.items(): print(i, s.__sro__, ro.is_consistent(s))")
     lines.append("# observed phases (node, __sro__, __iro__, ro, ro strict (None=raised), ro legacy, is_consistent):")
     for ph in obs.get("phases", []):
